@@ -38,6 +38,7 @@ type Scenario struct {
 	Faults    int   `json:"faults"`    // block requests answered with status 500 (seeded choice), failed heads are announced again
 	XCancel   bool  `json:"xcancel"`   // explicit syncs run under a context that is cancelled at a random point
 	Scoped    bool  `json:"scoped"`    // explicit syncs bring their own (scoped) block hook
+	Seg       int   `json:"seg"`       // segment depth limit of the subscriber (0: unsegmented)
 	LateReg   bool  `json:"latereg"`   // listeners may be registered after Close has started
 	Readers   bool  `json:"readers"`   // listeners are read by fast and slow readers during the run (otherwise: stalled, read at the end)
 	Seed      int64 `json:"seed"`
@@ -175,6 +176,9 @@ func Execute(sc Scenario, pubs []*chain.Pub) (log []gate.Event, key, detail stri
 	opts := []dagsync.Option{dagsync.BlockHook(hook), dagsync.RecvAnnounce(""), dagsync.HttpTimeout(5 * time.Second)}
 	if sc.Sem > 0 {
 		opts = append(opts, dagsync.MaxAsyncConcurrency(sc.Sem))
+	}
+	if sc.Seg > 0 {
+		opts = append(opts, dagsync.SegmentDepthLimit(int64(sc.Seg)))
 	}
 	s.Record(gate.Event{Ev: "reset", N: sc.Sem, P: sc.Pubs, C: sc.Ads})
 	// NewSubscriber starts the watcher, the distributor and the cleaner: they park at their first hooks.
@@ -496,6 +500,22 @@ func afterClose(r *run) (string, string) {
 			}
 			return ""
 		},
+		"SyncOneEntry": func() string {
+			before := r.dst.Len()
+			if err := r.sub.SyncOneEntry(context.Background(), p.AddrInfo(), p.Chain.Cids[len(p.Chain.Cids)-1]); err == nil {
+				return "SyncOneEntry after Close returned no error"
+			}
+			if r.dst.Len() != before {
+				return "SyncOneEntry after Close wrote to the store"
+			}
+			return ""
+		},
+		"SyncHAMTEntries": func() string {
+			if err := r.sub.SyncHAMTEntries(context.Background(), p.AddrInfo(), p.Chain.Cids[1]); err == nil {
+				return "SyncHAMTEntries after Close returned no error"
+			}
+			return ""
+		},
 		"Announce": func() string {
 			r.sub.Announce(context.Background(), p.Chain.Cids[1], p.AddrInfo())
 			return ""
@@ -517,7 +537,7 @@ func afterClose(r *run) (string, string) {
 		"RemoveHandler": func() string { r.sub.RemoveHandler(p.ID); return "" },
 		"Close":         func() string { r.sub.Close(); return "" },
 	}
-	for _, name := range []string{"SyncAdChain", "SyncEntries", "Announce", "OnSyncFinished", "GetLatestSync", "RemoveHandler", "Close"} {
+	for _, name := range []string{"SyncAdChain", "SyncEntries", "SyncOneEntry", "SyncHAMTEntries", "Announce", "OnSyncFinished", "GetLatestSync", "RemoveHandler", "Close"} {
 		done := make(chan string, 1)
 		go func() { done <- calls[name]() }()
 		select {
@@ -600,6 +620,9 @@ func Run(args []string) *rep.Report {
 	events := 0
 	for i := si; i < *count; i += sn {
 		sc := Scenario{Seed: *seed*100003 + int64(i), Pubs: 1 + i%2, Ads: 3, Sem: i % 3}
+		if i%4 == 1 {
+			sc.Seg = 1 + (i/4)%2 // a quarter of the runs: segmented syncs (the notification's count covers every segment)
+		}
 		switch *family {
 		case "mixed", "scoped":
 			sc.Explicit = 1
